@@ -1,7 +1,8 @@
 (* C03 — Tree-builder event interface: any event sequence yields the specified tree.
    Property theorems only.  Table obligations are over coq/Gen/Tables.v, regenerated from /repo on
    every run. *)
-From Coq Require Import List NArith Arith Bool String.
+From Coq Require Import String.
+From Coq Require Import List NArith Arith Bool.
 From BS Require Import Base.Sexp Base.Types Base.Lit Model.Heap Model.Edit Model.Build Spec.BuildSpec Proofs.BuildRefines Gen.Tables.
 Import ListNotations.
 Open Scope N_scope.
